@@ -23,6 +23,8 @@ type RSCase struct {
 	CtLevel int        `json:"ctLevel"`
 	Pat     string     `json:"pat"`
 	Dirty   bool       `json:"dirty"` // the output ciphertext holds stale data before the call
+	FlipNTT  bool `json:"flipNTT,omitempty"`  // down/up: ciphertext in the domain opposite to the parameters' NTTFlag
+	OutLevel int  `json:"outLevel,omitempty"` // down/up: level at which the receiver is allocated (if above the ciphertext level)
 	Seed    uint64     `json:"seed"`
 }
 
@@ -65,11 +67,22 @@ func genRS(t *rapid.T) RSCase {
 	}
 	c.Pat = []string{"uniform", "uniform", "top", "low"}[rapid.IntRange(0, 3).Draw(t, "pat")]
 	c.Dirty = rapid.IntRange(0, 2).Draw(t, "dirty") == 0
+	if !bridge {
+		c.FlipNTT = rapid.IntRange(0, 3).Draw(t, "flipNTT") == 0
+		if rapid.IntRange(0, 2).Draw(t, "outAbove") == 0 {
+			c.OutLevel = rapid.IntRange(c.CtLevel, len(c.Params.Q)-1).Draw(t, "outLevel")
+		}
+	}
 	c.Seed = rapid.Uint64().Draw(t, "seed")
 	return c
 }
 
 func runRS(c RSCase, rec *h.Rec) error {
+	_, err := guardNoPofP(c.Params, c.Key, rec, func() error { return runRSInner(c, rec) })
+	return err
+}
+
+func runRSInner(c RSCase, rec *h.Rec) error {
 	s := c.Params
 	bridge := c.Dir == "c2r" || c.Dir == "r2c"
 	small := s
@@ -103,6 +116,14 @@ func runRS(c RSCase, rec *h.Rec) error {
 	N, n := s.N(), small.N()
 	gap := N / n
 	lvl := c.CtLevel
+	isNTT := s.NTT
+	outLevel := lvl
+	if !bridge {
+		isNTT = s.NTT != c.FlipNTT
+		if c.OutLevel > lvl && c.OutLevel < len(s.Q) {
+			outLevel = c.OutLevel
+		}
+	}
 	rL, rS := pL.RingQ(), pS.RingQ()
 	Q := h.ProdU(moduli(rL.AtLevel(lvl)))
 
@@ -138,8 +159,8 @@ func runRS(c RSCase, rec *h.Rec) error {
 		}
 		if c.Dir == "down" {
 			m := uniformVec(rng, N, Q)
-			ct := freshCt(pL, sL, s.CI, m, lvl, rng, c.Pat)
-			out = newOut(pS, lvl, c.Dirty, rng)
+			ct := freshCt(pL, sL, s.CI, m, lvl, rng, c.Pat, isNTT)
+			out = newOut(pS, outLevel, 1, c.Dirty, rng)
 			if err := evalL.ApplyEvaluationKey(ct, evk, out); err != nil {
 				return h.Failf("C04:ringswitch:down:error", "ApplyEvaluationKey: %v", err)
 			}
@@ -151,8 +172,8 @@ func runRS(c RSCase, rec *h.Rec) error {
 			s1 = l1(sS)
 		} else {
 			m := uniformVec(rng, n, Q)
-			ct := freshCt(pS, sS, s.CI, m, lvl, rng, c.Pat)
-			out = newOut(pL, lvl, c.Dirty, rng)
+			ct := freshCt(pS, sS, s.CI, m, lvl, rng, c.Pat, isNTT)
+			out = newOut(pL, outLevel, 1, c.Dirty, rng)
 			if err := evalL.ApplyEvaluationKey(ct, evk, out); err != nil {
 				return h.Failf("C04:ringswitch:up:error", "ApplyEvaluationKey: %v", err)
 			}
@@ -186,8 +207,8 @@ func runRS(c RSCase, rec *h.Rec) error {
 		evalCk := ckks.NewEvaluator(ckL, nil)
 		if c.Dir == "r2c" {
 			m := uniformVec(rng, n, Q)
-			ct := freshCt(pS, sS, true, m, lvl, rng, c.Pat)
-			out = newOut(pL, lvl, c.Dirty, rng)
+			ct := freshCt(pS, sS, true, m, lvl, rng, c.Pat, true)
+			out = newOut(pL, lvl, 1, c.Dirty, rng)
 			if err := sw.RealToComplex(evalCk, ct, out); err != nil {
 				return h.Failf("C04:bridge:r2c:error", "RealToComplex: %v", err)
 			}
@@ -196,8 +217,8 @@ func runRS(c RSCase, rec *h.Rec) error {
 			s1 = l1(sL)
 		} else {
 			m := uniformVec(rng, N, Q)
-			ct := freshCt(pL, sL, false, m, lvl, rng, c.Pat)
-			out = newOut(pS, lvl, c.Dirty, rng)
+			ct := freshCt(pL, sL, false, m, lvl, rng, c.Pat, true)
+			out = newOut(pS, lvl, 1, c.Dirty, rng)
 			if err := sw.ComplexToReal(evalCk, ct, out); err != nil {
 				return h.Failf("C04:bridge:c2r:error", "ComplexToReal: %v", err)
 			}
@@ -218,8 +239,8 @@ func runRS(c RSCase, rec *h.Rec) error {
 	if out.Level() != lvl {
 		return h.Failf("C04:"+c.Dir+":level", "output level %d, want %d", out.Level(), lvl)
 	}
-	if out.IsNTT != s.NTT {
-		return h.Failf("C04:"+c.Dir+":metadata", "output IsNTT=%v, parameters NTTFlag=%v", out.IsNTT, s.NTT)
+	if out.IsNTT != isNTT {
+		return h.Failf("C04:"+c.Dir+":metadata", "output IsNTT=%v, input IsNTT=%v, parameters NTTFlag=%v", out.IsNTT, isNTT, s.NTT)
 	}
 	diff := h.VecCenter(h.VecSub(got, want), Q)
 	norm := h.InfNorm(diff)
@@ -241,6 +262,8 @@ func runRS(c RSCase, rec *h.Rec) error {
 	otherP := fmt.Sprint(c.SmallP) != fmt.Sprint(s.P)
 	rec.Classf("otherP=%v", otherP)
 	rec.Classf("dirtyOut=%v", c.Dirty)
+	rec.Classf("flipNTT=%v", c.FlipNTT)
+	rec.Classf("receiverAbove=%v", outLevel > lvl)
 	lvlClass := "ct=key"
 	if lvl < c.Key.LevelQ {
 		lvlClass = "ct<key"
@@ -259,7 +282,7 @@ func runRS(c RSCase, rec *h.Rec) error {
 		key := fmt.Sprintf("C04:ringswitch:%s:noise-above-bound", c.Dir)
 		if c.Dirty {
 			key = fmt.Sprintf("C04:ringswitch:%s:stale-output:noise-above-bound", c.Dir)
-			if c.Dir == "up" && !s.NTT {
+			if c.Dir == "up" && !isNTT {
 				key = keyStaleUp
 			}
 		}
@@ -279,8 +302,8 @@ func runRS(c RSCase, rec *h.Rec) error {
 		return h.Failf(key, "%s", msg)
 	}
 	if disc {
-		rec.NonTrivial(fmt.Sprintf("%s|N%d|gap%d|ci%v|ntt%v|%s|%s|%s|%s|%s|comp%v|otherP%v|dirty%v", c.Dir, N, c.LogGap, s.CI, s.NTT, pClass(s), wClass(c.Key.W),
-			sizeClass(s.Q), lvlClass, keyClass, c.Key.Compressed, otherP, c.Dirty))
+		rec.NonTrivial(fmt.Sprintf("%s|N%d|gap%d|ci%v|ntt%v|%s|%s|%s|%s|%s|comp%v|otherP%v|dirty%v|flip%v|above%v", c.Dir, N, c.LogGap, s.CI, s.NTT, pClass(s), wClass(c.Key.W),
+			sizeClass(s.Q), lvlClass, keyClass, c.Key.Compressed, otherP, c.Dirty, c.FlipNTT, outLevel > lvl))
 	}
 	return nil
 }
